@@ -152,6 +152,8 @@ func (e *c04e2) lattice() {
 			c.Unk("C04.R1", name, c.P.Decl(f).Pos(), "outside the order fragment: %s", why)
 		} else if b, ok := boxOf(res[0]); ok && b == emptyBox {
 			c.OK("C04.R1", name, c.P.Decl(f).Pos(), "join identity (+Inf,+Inf)-(-Inf,-Inf)")
+		} else if hasTop(res[0]) {
+			c.Unk("C04.R1", name, c.P.Decl(f).Pos(), "outside the order fragment: NewBounds() = %s", showVal(res[0]))
 		} else {
 			c.Bad("C04.R1", name, c.P.Decl(f).Pos(), "NewBounds() = %s is not the join identity (+Inf,+Inf)-(-Inf,-Inf)", showVal(res[0]))
 		}
@@ -167,6 +169,8 @@ func (e *c04e2) lattice() {
 			c.Unk("C04.R1", name, c.P.Decl(f).Pos(), "outside the order fragment: %s", why)
 		} else if b, ok := boxOf(res[0]); ok && b == (oBox{0, 2, 0, 2}) {
 			c.OK("C04.R1", name, c.P.Decl(f).Pos(), "degenerate box at the point")
+		} else if hasTop(res[0]) {
+			c.Unk("C04.R1", name, c.P.Decl(f).Pos(), "outside the order fragment: NewBoundsPoint(p) = %s", showVal(res[0]))
 		} else {
 			c.Bad("C04.R1", name, c.P.Decl(f).Pos(), "NewBoundsPoint(p) = %s, want Min=Max=p", showVal(res[0]))
 		}
@@ -286,6 +290,11 @@ func boxBoxIntersection(c *Ctx, e *c04e2, m *types.Func, rule string) {
 			return
 		}
 		if !noArea {
+			if hasTop(res[0]) {
+				c.Unk(rule, name, pos, "outside the order fragment: the result is %s", showVal(res[0]))
+				c.Evals(n)
+				return
+			}
 			if got, ok := boxOf(res[0]); !ok || got != ix {
 				c.Bad(rule, name, pos, "ordering a=%s b=%s: result %s, want common rectangle %s", bp.a, bp.b, showVal(res[0]), ix)
 				c.Evals(n)
@@ -323,6 +332,11 @@ func (e *c04e2) checkBoxJoin(m *types.Func, rule string) bool {
 		}
 		got, ok := boxOf(recv)
 		want := join(bp.a, bp.b, bp.aEmpty, bp.bEmpty)
+		if hasTop(recv) {
+			c.Unk(rule, name, pos, "outside the order fragment: the receiver becomes %s", showVal(recv))
+			c.Evals(n)
+			return false
+		}
 		if !ok || got != want {
 			extra := ""
 			if bp.bEmpty && bp.b != emptyBox {
